@@ -203,7 +203,7 @@ func badEntries(fl map[string]bw.PFile, rules []model.IgRule) ([]string, bool) {
 	for _, p := range paths {
 		f := fl[p]
 		switch f.Kind {
-		case "fifo":
+		case "fifo", "sock", "dev":
 			bad = append(bad, "special file "+p)
 		case "link":
 			var dir []string
